@@ -264,9 +264,12 @@ func (e *StorageEngine) processExpiredObjects(addrs []oid.Address) {
 	for _, addr := range addrs {
 		locked, err := e.isLocked(addr)
 		if err != nil {
-			e.log.Warn("removing an object without full locking check",
+			// some shard can't tell (e.g. degraded mode) and it may hold the only
+			// LOCK of the object: keep it, the next GC cycle will try again
+			e.log.Warn("skip an expired object without full locking check",
 				zap.Error(err),
 				zap.Stringer("addr", addr))
+			continue
 		} else if locked {
 			e.log.Warn("skip an expired object with lock",
 				zap.Stringer("addr", addr))
